@@ -24,8 +24,10 @@ RULE = ("passwords over printable ASCII (0x20..0x7e) minus {?, \"} and (mostly) 
         "blanks, line feeds, non-numeric salt, two characters, empty) and the CiscoPassword(ep).decrypt_type_7() calling form, "
         "compared with the model only. "
         "non-trivial = a type-7 case whose key index wraps (salt + length > 53) or a type 5/8/9 hash; distinct by request line. "
-        "Not generated: lone surrogates, non-ASCII decimal digits in a type-7 string, NUL inside a type-5 password is generated "
-        "(passlib raises ValueError).")
+        "Not generated: lone surrogates, non-ASCII decimal digits in a type-7 string. A NUL inside a type-5 password is generated "
+        "(passlib raises ValueError, modelled). The oracle judges only inputs inside the property's quantifier (salts 0..52, "
+        "passwords of length 1..127 over printable ASCII minus {?, \"}) plus the must-reject set; a stricter pwd_check "
+        "(today: the backslash of the raw string r\"?\\\"\") is not reported.")
 LEVEL_TEXT = ("Theorems (Lean 4, all inputs): the library's decrypt_type_7 walk over the table generated from its source inverts the "
               "reference type-7 encoder for every salt < 100 and every non-empty ASCII password (no length bound), hence for every "
               "password pwd_check accepts; the generated key table equals the well-known constant; pwd_check accepts exactly "
@@ -252,7 +254,7 @@ def cases(rng, tier):
     q = tier != "thorough"
     # --- the reference encoder through the library's decoder: every salt
     for salt in range(53):
-        lens = LENS + [rng.randint(1, 127) for _ in range(6)] if q else list(range(1, 128)) + LENS
+        lens = LENS + [rng.randint(1, 127) for _ in range(6)] if q else list(range(1, 128)) * 2 + LENS
         for n in lens:
             yield mk("ref7", rand_pwd(rng, n), salt=salt)
     for _ in range(60 if q else 2000):
@@ -260,7 +262,7 @@ def cases(rng, tier):
     for _ in range(40 if q else 1000):
         yield mk("ref7", odd_pwd(rng), salt=rng.randint(0, 52))
     # --- the library's encoder with each of its 16 salts
-    for s in seeds_for("lib7", rng, 12 if q else 250):
+    for s in seeds_for("lib7", rng, 12 if q else 600):
         yield mk("lib7", rand_pwd(rng), seed=s)
     for _ in range(100 if q else 1500):
         yield mk("lib7", rejected_pwd(rng) if rng.random() < 0.6 else odd_pwd(rng), seed=rng.randrange(1 << 30))
@@ -270,14 +272,14 @@ def cases(rng, tier):
     for _ in range(300 if q else 4000):
         yield mk("chk", rejected_pwd(rng) if rng.random() < 0.7 else odd_pwd(rng))
     # --- decoder on malformed type-7 strings
-    for _ in range(2000 if q else 25000):
+    for _ in range(2000 if q else 60000):
         yield mk("dec7", ep=malformed7(rng))
     for _ in range(60 if q else 1500):
         good = py_encode7(rng.randint(0, 52), rand_pwd(rng, rng.choice([1, 2, 9, 60])))
         a, b = rng.choice([(good, ""), ("", good), (good, malformed7(rng)), (malformed7(rng), ""), ("", "")])
         yield mk("dec7o", pwd=a, ep=b)
     # --- hashes (bounded: each costs a KDF at generation, in the library and in the oracle)
-    for kind, n in (("h5", 100 if q else 1500), ("h8", 60 if q else 400), ("h9", 60 if q else 400)):
+    for kind, n in (("h5", 100 if q else 1500), ("h8", 60 if q else 800), ("h9", 60 if q else 800)):
         for i in range(n):
             r = rng.random() if i >= 6 else (0.9 if i < 4 else 0.99)     # a few rejected / odd ones in every run
             pwd = rand_pwd(rng) if r < 0.85 else (rejected_pwd(rng) if r < 0.93 else odd_pwd(rng))
